@@ -88,6 +88,8 @@ def _configs():
                     for allowed_text, allowed in _allowed_settings(base, fixed):
                         fmt = gen_fields.format_spec(kind, allowed=allowed, allowed_text=allowed_text)
                         fmt["thousands"] = ""  # keep separators out of the way of the guard matrix
+                        if empty:
+                            fmt["layout"] = "late-properties"  # the property rows behind the field row
                         field_model = model
                         field_rule = rule
                         if type_name == "Integer":
@@ -293,6 +295,8 @@ def random_cases(draw):
     else:
         allowed_text, allowed = "32...%d" % hi, [[32, hi]]
     fmt = gen_fields.format_spec(kind, allowed=allowed, allowed_text=allowed_text)
+    # only Format has to be the first row: the other properties may stand behind the field they apply to
+    fmt["layout"] = draw(st.sampled_from([None, None, "late-properties"]))
     type_name = draw(st.sampled_from(["Text", "Pattern", "RegEx", "Choice", "Integer", "Decimal", "Decimal", "DateTime"]))
     field = draw(gen_fields.FIELD_STRATEGIES[type_name]("guarded", fmt))
     if type_name in ("Pattern", "RegEx", "Choice", "Decimal", "DateTime") and kind != "fixed":
